@@ -538,12 +538,13 @@ def check_C11(replay=None):
 def check_C12(replay=None):
     return _run_family("C12", DBG_RULE % "histories of execution, move, goto, eval and self-modifying stores followed by reset (repeated, and followed by a complete run); after reset the full 65,536-word state must equal the load state",
                        DBG_ASSUME, _dbg_jobs("reset", extra=[("scn", ["--mode", "scenario"])]), replay, mc=_mc_dbg("mut"),
-                       replay_b=lambda th: ("Gen_Debugger.cfg", 1 if th else 2), extra_fn=lambda chk, th: _env_events(chk, {"lastcmd"}))
+                       replay_b=lambda th: ("Gen_Debugger.cfg", 1 if th else 2), extra_fn=lambda chk, th: (_env_events(chk, {"lastcmd"}), _modepair_events(chk, 24 * SCALE if th else 12)))
 
 
 def check_C13(replay=None):
     return _run_family("C13", DBG_RULE % "move / goto / break add/remove / print / assembly on absolute, label+-offset and ^offset locations at origin-1, origin, 0x7FFF, 0x8000, 0xFDFF, 0xFE00, 0xFFFF and with offsets +-32767/8",
-                       DBG_ASSUME, _dbg_jobs("loc", quick_n=32, extra=[("scn", ["--mode", "scenario"]), ("cmdedge", ["--GEN-CMD--", "--mode", "random", "--n", 100])]), replay, mc=_mc_dbg("mut"))
+                       DBG_ASSUME, _dbg_jobs("loc", quick_n=32, extra=[("scn", ["--mode", "scenario"]), ("cmdedge", ["--GEN-CMD--", "--mode", "random", "--n", 100])]), replay, mc=_mc_dbg("mut"),
+                       extra_fn=lambda chk, th: _modepair_events(chk, 24 * SCALE if th else 12))
 
 
 def check_C15(replay=None):
@@ -802,6 +803,65 @@ def _env_events(chk, kinds, n=6):
     _cli_validate(chk, events, "env")
     _shutil.rmtree(d, ignore_errors=True)
     return events
+
+
+def _modepair_events(chk, n):
+    """The same mutating script run with and without --minimal: the values that print / registers show must be the same (the decorated
+    output is produced by other code than the plain one; nothing in it may touch the machine)."""
+    import random
+    vlib.build(need_cli=True)
+    rnd = random.Random(chk.seed * 53 + 7)
+    d = _wpath("%s_modepair" % chk.pid.lower())
+    _shutil.rmtree(d, ignore_errors=True)
+    os.makedirs(d)
+    progs = ["add r0 r0 #5\nst r0 x\nld r1 x\nadd r1 r1 r1\nst r1 y\nhalt\nx .fill x1234\ny .fill #7\n",
+             "lea r2 t\nldr r3 r2 #0\nstr r3 r2 #1\nadd r3 r3 #1\nstr r3 r2 #-1\nhalt\nt .fill x00aa\nu .fill x00bb\n",
+             ".orig x4000\nand r0 r0 #0\nloop add r0 r0 #1\nst r0 slot\nadd r1 r0 #-3\nbrn loop\nhalt\nslot .fill #0\n"]
+    labels = [["x", "y"], ["t", "u"], ["slot", "loop"]]
+    events = []
+    for k in range(n):
+        pi = k % len(progs)
+        src = os.path.join(d, "m%d.asm" % pi)
+        open(src, "w").write(progs[pi])
+        cmds = []
+        for _ in range(rnd.randint(4, 10)):
+            lab = rnd.choice(labels[pi])
+            cmds.append(rnd.choice(["step", "step into 2", "step into 3", "continue", "print " + lab, "print r0", "print r1", "print ^", "registers", "assembly", "assembly " + lab,
+                                    "assembly ^1", "reset", "move r2 x%x" % rnd.randint(0, 65535), ("move %s x%x" % (lab, rnd.randint(0, 65535))) if pi < 2 else "print r2", "break list",
+                                    "break add " + lab, "eval add r0 r0 #1", "echo m", "help"]))
+        cmds += ["print " + labels[pi][0], "registers", "reset", "print " + labels[pi][-1], "registers", "exit"]
+        script = ";".join(cmds)
+        a = vlib.run_lace(["debug", "--minimal", src, "--command", script])
+        b = vlib.run_lace(["debug", src, "--command", script], env_extra={"NO_COLOR": "1"})
+
+        def values_min(r):
+            out = []
+            for ln in (r[1] + r[2]).decode("utf-8", "replace").split("\n"):
+                m = _re.match(r"^x([0-9a-f]{4})$", ln) or _re.match(r"^R\d x([0-9a-f]{4})$", ln) or _re.match(r"^PC x([0-9a-f]{4})$", ln)
+                if m:
+                    out.append(int(m.group(1), 16))
+                m = _re.match(r"^CC ([01]{3})$", ln)
+                if m:
+                    out.append(int(m.group(1), 2))
+            return out
+
+        def values_full(r):
+            out = []
+            text = _re.sub(r"\x1b\[[0-9;]*m", "", (r[1] + r[2]).decode("utf-8", "replace"))
+            for ln in text.split("\n"):
+                m = _re.match(r"^\u2502 0x([0-9a-f]{4}) ", ln) or _re.match(r"^\u2502 R\d  0x([0-9a-f]{4}) ", ln)
+                if m:
+                    out.append(int(m.group(1), 16))
+                m = _re.match(r"^\u2502 +PC 0x([0-9a-f]{4}) +\u2502 +CC +([01]{3}) ", ln)
+                if m:
+                    out.append(int(m.group(1), 16))
+                    out.append(int(m.group(2), 2))
+            return out
+        if a[0] == -1 and b[0] == -1:
+            continue          # the script made the program loop in both modes: nothing to compare
+        events.append({"ev": "modepair", "tag": "m%d" % k, "min": [a[0], values_min(a)], "full": [b[0], values_full(b)], "script": script, "src": progs[pi]})
+    _cli_validate(chk, events, "modepair")
+    _shutil.rmtree(d, ignore_errors=True)
 
 
 def _xport_events(chk, n, seed):
